@@ -198,9 +198,15 @@ Definition circ_conv0 (x y : tensor) : tensor :=
      | [] => 0%Z end).
 
 (* toeplitz_matmul(toeplitz_column, toeplitz_row, tensor).
-   `vec_ok` selects how a 1-D right-hand side is treated: true = as documented (unsqueeze, multiply,
-   squeeze -- the repaired code); false = the pinned code, whose `tensor.expand(output_shape)` after the
-   unsqueeze raises for a 1-D column (recorded as a known finding). *)
+   `vec_ok` selects how a 1-D right-hand side is treated:
+     true  = the repaired code (proposed_fixes/C20-toeplitz-matmul-vector.diff): unsqueeze(-1) BEFORE the shapes are
+             computed, multiply as a one-column matrix, squeeze(-1) the result — what the docstring promises;
+     false = the pinned code: `output_shape = _matmul_broadcast_shape(toeplitz_shape, tensor.shape)` is computed for the
+             1-D tensor (= toeplitz_shape[:-1]), then the tensor is unsqueezed to 2-D and `tensor.expand` to `output_shape`
+             is asked to expand a 2-D tensor to rank 1 + len(batch): for an unbatched column that expand ALWAYS raises;
+             for batched columns a later size check / slice assignment raises for every shape except all-singleton ones.
+             The `false` variant is the over-approximation "raises"; it is only ever evaluated to classify a failure
+             of the property as the recorded known finding (harness: K.variants), never to accept an output. *)
 Definition toeplitz_matmul_core (c r M : tensor) : result tensor :=     (* M has >= 2 dims *)
   if negb (list_nat_eqb (tshape c) (tshape r)) then Err else
   match tshape r with [] => Err | n :: _ =>
